@@ -419,14 +419,26 @@ def nanvar(
     scalar or ndarray
         Variance of values
     """
+    arr = np.asarray(arr)
+    if arr.dtype.kind in "iu":
+        # as NumPy: the variance of integers is computed in float64 (squares of int64 wrap around)
+        arr = arr.astype(np.float64)
     kwargs = locals().copy()
     del kwargs["ddof"]
     n = count(arr, axis=axis)
-    sum_sq = reduce(reduce_func_name="sum_square", **kwargs)
     sum = reduce(reduce_func_name="sum", **kwargs)
     d = n - ddof
+    if arr.ndim == 1:
+        if d == 0 or n == 0:
+            # a variance is a float whatever the input dtype: too few values give NaN, as in NumPy
+            return np.nan
+        # two passes, as NumPy: the squared deviations from the mean add up without the
+        # cancellation of sum(x**2) - sum(x)**2 / n, which leaves nothing of the variance
+        # once the values are large compared with their spread
+        kwargs["arr"] = arr - sum / n
+        return reduce(reduce_func_name="sum_square", **kwargs) / d
+    sum_sq = reduce(reduce_func_name="sum_square", **kwargs)
     if d == 0 or n == 0:
-        # a variance is a float whatever the input dtype: too few values give NaN, as in NumPy
         return np.nan
     return (sum_sq - sum**2 / n) / d
 
